@@ -388,3 +388,16 @@ Proof.
       * exists (S k'), en, cs. replace (pos + S k') with (S pos + k') by lia.
         simpl; repeat split; auto; lia.
 Qed.
+
+Lemma search_sound : forall r s pos st en cs,
+  search r s pos = Some (st, en, cs) ->
+  exists k, k <= length s /\ st = pos + k /\ match_here r (skipn k s) st = Some (en, cs).
+Proof.
+  intros r s; induction s as [|x s IH]; intros pos st en cs H; simpl in H.
+  - destruct (match_here r [] pos) as [[e c]|] eqn:E; [|discriminate].
+    inversion H; subst. exists 0; simpl; rewrite Nat.add_0_r; auto.
+  - destruct (match_here r (x :: s) pos) as [[e c]|] eqn:E.
+    + inversion H; subst. exists 0; simpl; rewrite Nat.add_0_r; repeat split; auto; lia.
+    + apply IH in H. destruct H as (k & Hk & Hst & Hm).
+      exists (S k); simpl; repeat split; auto; lia.
+Qed.
